@@ -37,15 +37,20 @@ Definition UH2 (x4 : R) (j : nat) : R := SH2 x4 (INR j) - SH2 x4 (INR j - 1).
 (** number of ordinates: n = ceil(x), as a relation *)
 Definition is_ceil (x : R) (n : nat) : Prop := INR n - 1 < x <= INR n.
 
-(** Production store for one day (eqs. 1-8): returns (S', Pr) *)
-Definition spec_production (x1 S P E : R) : R * R :=
+(** Production store for one day (eqs. 1-8): returns (S', Pr).  The hyperbolic tangent is a
+    parameter [th] so that the one place where the code deviates from the paper (it evaluates
+    tanh(min(w, 13)) instead of tanh w) can be stated exactly: the published model is
+    [th := tanh], the capped variant is [th := tanh13]. *)
+Definition spec_production_with (th : R -> R) (x1 S P E : R) : R * R :=
   let Pn := Rmax (P - E) 0 in
   let En := Rmax (E - P) 0 in
-  let Ps := x1 * (1 - (S / x1) ^ 2) * tanh (Pn / x1) / (1 + S / x1 * tanh (Pn / x1)) in
-  let Es := S * (2 - S / x1) * tanh (En / x1) / (1 + (1 - S / x1) * tanh (En / x1)) in
+  let Ps := x1 * (1 - (S / x1) ^ 2) * th (Pn / x1) / (1 + S / x1 * th (Pn / x1)) in
+  let Es := S * (2 - S / x1) * th (En / x1) / (1 + (1 - S / x1) * th (En / x1)) in
   let S1 := S - Es + Ps in
   let Perc := S1 * (1 - inv_root4 (1 + (4 / 9 * (S1 / x1)) ^ 4)) in
   (S1 - Perc, Perc + (Pn - Ps)).
+Definition spec_production := spec_production_with tanh.
+Definition tanh13 (w : R) : R := tanh (Rmin w 13).
 
 (** Exchange, routing store, direct branch (eqs. 18-23): returns (R', Q) *)
 Definition spec_routing (x2 x3 Rs Q9 Q1 : R) : R * R :=
@@ -60,13 +65,14 @@ Fixpoint sum_upto (f : nat -> R) (n : nat) : R :=
   match n with O => 0 | S m => sum_upto f m + f m end.
 
 (** pass 1: production store over the whole series: (final S, series of Pr) *)
-Fixpoint spec_production_run (x1 S : R) (io : list (R * R)) : R * list R :=
+Fixpoint spec_production_run_with (th : R -> R) (x1 S : R) (io : list (R * R)) : R * list R :=
   match io with
   | [] => (S, [])
   | (P, E) :: r =>
-      let (S1, Pr) := spec_production x1 S P E in
-      let (ST, prs) := spec_production_run x1 S1 r in (ST, Pr :: prs)
+      let (S1, Pr) := spec_production_with th x1 S P E in
+      let (ST, prs) := spec_production_run_with th x1 S1 r in (ST, Pr :: prs)
   end.
+Definition spec_production_run := spec_production_run_with tanh.
 
 (** pass 2: convolution.  [b] is the water already in transit at the start
     ([nth i b 0] arrives on day i, counted from 0); [c] = 0.9 or 0.1.
@@ -89,11 +95,11 @@ Fixpoint spec_routing_run (x2 x3 Rs : R) (qs : list (R * R)) : R * list R :=
 
 Record spec_result := { sp_S : R; sp_R : R; sp_q1 : list R; sp_q9 : list R; sp_Q : list R }.
 
-(** The published model on a series, from initial stores S0, R0 and carried
-    unit-hydrograph stores q1_0 (n2 values), q9_0 (n1 values). *)
-Definition spec_run (x1 x2 x3 x4 : R) (n1 n2 : nat) (S0 R0 : R) (q1_0 q9_0 : list R)
+(** The model on a series, from initial stores S0, R0 and carried unit-hydrograph stores
+    q1_0 (n2 values), q9_0 (n1 values). *)
+Definition spec_run_with (th : R -> R) (x1 x2 x3 x4 : R) (n1 n2 : nat) (S0 R0 : R) (q1_0 q9_0 : list R)
            (io : list (R * R)) : spec_result :=
-  let (ST, prs) := spec_production_run x1 S0 io in
+  let (ST, prs) := spec_production_run_with th x1 S0 io in
   let T := length io in
   let q9s := map (conv_out (9 / 10) (UH1 x4) q9_0 prs) (seq 0 T) in
   let q1s := map (conv_out (1 / 10) (UH2 x4) q1_0 prs) (seq 0 T) in
@@ -102,3 +108,8 @@ Definition spec_run (x1 x2 x3 x4 : R) (n1 n2 : nat) (S0 R0 : R) (q1_0 q9_0 : lis
      sp_q1 := map (conv_carry (1 / 10) (UH2 x4) q1_0 prs T) (seq 0 n2);
      sp_q9 := map (conv_carry (9 / 10) (UH1 x4) q9_0 prs T) (seq 0 n1);
      sp_Q := Qs |}.
+
+(** the published model *)
+Definition spec_run := spec_run_with tanh.
+(** the published model with the argument of tanh capped at 13 *)
+Definition spec_run_capped := spec_run_with tanh13.
